@@ -1023,3 +1023,92 @@ def facade_names(ctx, py, P, classes=(("trees", "Tree"),), rule="PY-LL-NAME", fl
                    "%s never reaches self.%s.%s (low-level attributes reached: %s)" % (qn, attr, "/".join(sorted(cands)), sorted(got)[:6] or "none"))
     ctx.floor(rule, floor)
     return n
+
+
+def _names_load(n): return {x.id for x in ast.walk(n) if isinstance(x,ast.Name) and isinstance(x.ctx,ast.Load)}
+def _names_store(n): return {x.id for x in ast.walk(n) if isinstance(x,ast.Name) and isinstance(x.ctx,ast.Store)}
+def loop_carried(fn):
+    """[(loop, name, statement)]: `name` is read in the loop body on a path on which this iteration has not assigned it, while some
+    other path of the body assigns it under a loop-variant condition (conditions that cannot change between iterations are
+    transparent): the value seen is the one left by an earlier iteration."""
+    out=[]
+    for lp in ast.walk(fn):
+        if not isinstance(lp,(ast.For,ast.While)): continue
+        variant=set(_names_store(lp.target)) if isinstance(lp,ast.For) else set()
+        for s in lp.body: variant|=_names_store(s)
+        # variables assigned under a loop-variant condition somewhere in the body
+        maybe={}
+        def collect(stmts, under_variant):
+            for s in stmts:
+                if isinstance(s,ast.If):
+                    uv = under_variant or bool(_names_load(s.test)&variant)
+                    collect(s.body,uv); collect(s.orelse,uv)
+                elif isinstance(s,(ast.For,ast.While)):
+                    collect(s.body,True); collect(s.orelse,under_variant)
+                elif isinstance(s,ast.Try):
+                    collect(s.body,True)
+                    for h in s.handlers: collect(h.body,True)
+                    collect(s.orelse,True); collect(s.finalbody,under_variant)
+                elif isinstance(s,ast.With):
+                    collect(s.body,under_variant)
+                else:
+                    if under_variant:
+                        for v in _names_store(s): maybe.setdefault(v,s)
+        collect(lp.body,False)
+        if not maybe: continue
+        hits=[]
+        def visit(stmts, definite):
+            for s in stmts:
+                if isinstance(s,ast.If):
+                    for v in _names_load(s.test):
+                        if v in maybe and v not in definite: hits.append((v,s))
+                    if _names_load(s.test)&variant:
+                        d1=visit(s.body,set(definite)); d2=visit(s.orelse,set(definite))
+                        definite|=(d1&d2)
+                    else:
+                        d1=visit(s.body,set(definite)); d2=visit(s.orelse,set(definite))
+                        definite|=(d1|d2)   # invariant test: the same branch every iteration
+                elif isinstance(s,(ast.For,ast.While,ast.With,ast.Try)):
+                    for v in _names_load(s):
+                        if v in maybe and v not in definite and v not in _names_store(s): hits.append((v,s))
+                else:
+                    for v in _names_load(s):
+                        if v in maybe and v not in definite:
+                            # augmented / self-referential updates are accumulators, not stale reads
+                            if isinstance(s,ast.AugAssign) and isinstance(s.target,ast.Name) and s.target.id==v: continue
+                            if isinstance(s,ast.Assign) and v in _names_store(s): continue
+                            hits.append((v,s))
+                    definite|=_names_store(s)
+            return definite
+        d0=set(_names_store(lp.target)) if isinstance(lp,ast.For) else set()
+        visit(lp.body,d0)
+        out+= [(lp,v,s) for v,s in hits]
+    return out
+
+
+def row_independent(ctx, py, rule="PY-ROW-INDEPENDENT", floor=8):
+    ctx.rule(rule, "the text parsers treat every line independently: in each `for line in source` loop of the parse_* functions no "
+                   "name that reaches table.add_row can carry a value over from an earlier line (every such name is assigned in "
+                   "this iteration before the call, or is only ever assigned under conditions that cannot change between lines)")
+    m = py.mod("trees")
+    n = 0
+    for qn, fn in m.funcs.items():
+        if not qn.startswith("parse_"):
+            continue
+        carried = {}
+        for lp, v, s in loop_carried(fn):
+            carried.setdefault(v, s)
+        for lp in ast.walk(fn):
+            if not isinstance(lp, ast.For):
+                continue
+            for c in ast.walk(lp):
+                if isinstance(c, ast.Call) and isinstance(c.func, ast.Attribute) and c.func.attr == "add_row":
+                    used = sorted({x.id for a in list(c.args) + [k.value for k in c.keywords] for x in ast.walk(a) if isinstance(x, ast.Name)})
+                    for v in used:
+                        n += 1
+                        bad = v in carried
+                        ctx.ob(rule, "%s|%s" % (qn, v), not bad, m.loc(carried[v]) if bad else m.loc(c),
+                               "`%s` is assigned afresh for every line (or never inside the loop)" % v if not bad else
+                               "`%s` reaches add_row with the value an earlier line left in it when this line's condition is false" % v)
+    ctx.floor(rule, floor)
+    return n
